@@ -7,6 +7,8 @@ package props
 import (
 	"encoding/json"
 	"fmt"
+	"os"
+	"path/filepath"
 	"strconv"
 	"strings"
 	"sync"
@@ -35,6 +37,8 @@ type c15Scenario struct {
 	FailoverEr []int  `json:"failover_err"` // vb indices whose failover-log query fails
 	OpenErr    []int  `json:"open_err"`     // vb indices whose initial OpenStream fails
 	ReopenFail bool   `json:"reopen_fail"`  // after start: a transient end whose re-open keeps failing (5 retries)
+	LoadOmit   []int  `json:"load_omit"`    // vb indices missing from the dump the store returns (checkpoints written under another assignment)
+	FileDump   string `json:"file_dump"`    // "" | partial | corrupt : real file backend with such a checkpoint file
 }
 
 func (sc c15Scenario) rangeOf() (int, int) { return c16Range(sc.NumVb, sc.Total, sc.Member) }
@@ -45,6 +49,12 @@ func (sc c15Scenario) expectedFault() string {
 	n := hi - lo + 1
 	if sc.MetaType != "" {
 		return "invalid metadata type"
+	}
+	partial := sc.FileDump != ""
+	for _, o := range sc.LoadOmit {
+		if o%n >= 0 {
+			partial = true
+		}
 	}
 	if sc.Membership != "static" {
 		return "unknown membership"
@@ -75,6 +85,9 @@ func (sc c15Scenario) expectedFault() string {
 		if r := sc.Rel[i%len(sc.Rel)]; r != 9 && r > 0 {
 			return "checkpoint seqNo bigger then vBucket latest seqNo"
 		}
+	}
+	if partial {
+		return "not found on offset map"
 	}
 	if len(sc.OpenErr) > 0 {
 		return "injected open failure"
@@ -114,6 +127,22 @@ func c15Child(raw json.RawMessage) any {
 	}
 	if sc.LoadErr {
 		fm.loadErr = fmt.Errorf("injected load failure")
+	}
+	fm.loadOmit = map[uint16]bool{}
+	for _, o := range sc.LoadOmit {
+		fm.loadOmit[uint16(lo+o%n)] = true
+	}
+	if sc.FileDump != "" {
+		path := filepath.Join(os.TempDir(), fmt.Sprintf("c15-%d.json", os.Getpid()))
+		defer os.Remove(path)
+		content := "{\"0\": {\"checkpoint\": {\"vbuuid\": 1, \"seqno\": 0, \"snapshot\": {\"startSeqno\": 0, \"endSeqno\": 0}}, \"bucketUuid\": \"u\""
+		if sc.FileDump == "partial" {
+			// a valid file that covers only the first assigned vBucket (written under another membership)
+			content = fmt.Sprintf("{\"%d\": {\"checkpoint\": {\"vbuuid\": %d, \"seqno\": 0, \"snapshot\": {\"startSeqno\": 0, \"endSeqno\": 0}}, \"bucketUuid\": \"u\"}}", lo, uint64(cl.failoverOf(uint16(lo))[0].VbUUID))
+		}
+		_ = os.WriteFile(path, []byte(content), 0o644)
+		cfg.Metadata.Type = "file"
+		cfg.Metadata.Config = map[string]string{"fileName": path}
 	}
 	if sc.SeqNoErr {
 		cl.seqNoErr = fmt.Errorf("injected seqno failure")
@@ -164,7 +193,7 @@ func c15Child(raw json.RawMessage) any {
 		cfg.Metadata.Type = sc.MetaType
 	}
 	d := godcp.VerifNewDcp(cfg, cl, cons, &couchbase.Version{Major: 7, Minor: 6}, &couchbase.BucketInfo{BucketType: "membase"})
-	if sc.MetaType == "" {
+	if sc.MetaType == "" && sc.FileDump == "" {
 		d.SetMetadata(fm)
 	}
 	started.Add(1)
@@ -294,7 +323,7 @@ func c15Gen(rt *rapid.T) c15Scenario {
 	n := hi - lo + 1
 	sc.High = rapid.SliceOfN(rapid.IntRange(0, 40), 1, 6).Draw(rt, "high")
 	relGen := rapid.SampledFrom([]int{9, 9, -2, -1, 0, 0})
-	kind := rapid.SampledFrom([]string{"control", "control", "above", "above", "load", "seqno", "failover", "open", "open", "membership", "metadata", "leader", "reopen", "multi"}).Draw(rt, "kind")
+	kind := rapid.SampledFrom([]string{"control", "control", "above", "above", "load", "seqno", "failover", "open", "open", "membership", "metadata", "leader", "reopen", "multi", "partial_load", "partial_load", "file_dump"}).Draw(rt, "kind")
 	if kind == "failover" {
 		relGen = rapid.Just(9)
 		sc.Reset = "latest"
@@ -323,6 +352,20 @@ func c15Gen(rt *rapid.T) c15Scenario {
 		sc.LeaderType = rapid.SampledFrom([]string{"Kubernetes", "etcd", "x"}).Draw(rt, "ltype")
 	case "reopen":
 		sc.ReopenFail = true
+	case "partial_load":
+		if n >= 2 {
+			sc.LoadOmit = rapid.SliceOfNDistinct(rapid.IntRange(0, n-1), 1, n-1, func(i int) int { return i }).Draw(rt, "omit")
+		}
+		for i := range sc.Rel {
+			if sc.Rel[i] > 0 {
+				sc.Rel[i] = 0
+			}
+		}
+	case "file_dump":
+		if n >= 2 {
+			sc.FileDump = rapid.SampledFrom([]string{"partial", "corrupt"}).Draw(rt, "dump")
+		}
+		sc.Rel = []int{9}
 	case "multi":
 		sc.OpenErr = subset("open")
 		sc.SeqNoErr = rapid.Bool().Draw(rt, "seq2")
